@@ -91,6 +91,12 @@ const marker = "VERIFCLEARTEXTMARKER0123"
 
 // ---------------------------------------------------------------- string classes
 
+// built once: rapid expands a range table into a slice of all its runes (4 MB for the astral planes)
+var (
+	bmpGen    = rapid.StringOfN(rapid.RuneFrom(nil, rt(0xa1, 0xd7ff)), 1, 16, -1)
+	astralGen = rapid.StringOfN(rapid.RuneFrom(nil, rt32(0x10000, 0x10ffff)), 1, 8, -1)
+)
+
 var strClasses = []string{"empty", "ascii", "nulterm", "bmp", "astral", "long", "path", "marker"}
 
 func genStr(t *rapid.T, label string, allowEmpty bool, noSemicolon bool) (string, string) {
@@ -108,9 +114,9 @@ func genStr(t *rapid.T, label string, allowEmpty bool, noSemicolon bool) (string
 	case "nulterm":
 		s = rapid.StringMatching(`[A-Za-z0-9]{1,12}`).Draw(t, label) + "\x00"
 	case "bmp":
-		s = rapid.StringOfN(rapid.RuneFrom(nil, rt(0xa1, 0xd7ff)), 1, 16, -1).Draw(t, label)
+		s = bmpGen.Draw(t, label)
 	case "astral":
-		s = rapid.StringOfN(rapid.RuneFrom(nil, rt32(0x10000, 0x10ffff)), 1, 8, -1).Draw(t, label) + "z"
+		s = astralGen.Draw(t, label) + "z"
 	case "long":
 		n := rapid.SampledFrom([]int{300, 4096, 70000}).Draw(t, label+"_len")
 		s = strings.Repeat("Ab3_", n/4)
@@ -168,7 +174,17 @@ var kinds = []string{
 func genOp(t *rapid.T, i int) Op {
 	l := fmt.Sprintf("op%d_", i)
 	op := Op{Kind: rapid.SampledFrom(kinds).Draw(t, l+"kind")}
-	op.TaskID = fmt.Sprintf("%08X", rapid.OneOf(rapid.SampledFrom([]uint32{1, 0x7fffffff, 0x80000000, 0xffffffff, 0xdeadbeef}), rapid.Uint32()).Draw(t, l+"task"))
+	// the Qt client sends 8 upper-case hex digits; scripts / the Python API send what they like, and
+	// TaskPrepare takes any hex number: 1-8 digits, either case
+	tid := rapid.OneOf(rapid.SampledFrom([]uint32{1, 7, 0xabc, 0x7fffffff, 0x80000000, 0xffffffff, 0xdeadbeef}), rapid.Uint32(), rapid.Uint32Range(0, 0xfffff)).Draw(t, l+"task")
+	switch rapid.IntRange(0, 3).Draw(t, l+"taskfmt") {
+	case 0, 1:
+		op.TaskID = fmt.Sprintf("%08X", tid)
+	case 2:
+		op.TaskID = fmt.Sprintf("%x", tid)
+	default:
+		op.TaskID = fmt.Sprintf("%X", tid)
+	}
 	str := func(n string, empty, nosemi bool) {
 		s, _ := genStr(t, l+n, empty, nosemi)
 		op.S = append(op.S, s)
@@ -326,11 +342,12 @@ func gen(t *rapid.T) Case {
 	seen := map[string]bool{}
 	for i := 0; i < n; i++ {
 		op := genOp(t, i)
-		for seen[op.TaskID] { // request ids of one batch are distinct, as the client guarantees (random 8 hex digits)
+		norm := func(s string) string { v, _ := strconv.ParseUint(s, 16, 32); return fmt.Sprintf("%08x", v) }
+		for seen[norm(op.TaskID)] { // request ids of one batch are distinct, as the client guarantees (random ids)
 			v, _ := strconv.ParseUint(op.TaskID, 16, 32)
 			op.TaskID = fmt.Sprintf("%08X", uint32(v+1))
 		}
-		seen[op.TaskID] = true
+		seen[norm(op.TaskID)] = true
 		c.Ops = append(c.Ops, op)
 	}
 	return c
